@@ -238,7 +238,7 @@ func runHostile(c HostileCase) (res HostileResult) {
 			ctl.Write(fe)
 		}
 		// a conforming sender writes End only after every FileDone; give the receiver 300 ms for that
-		waitUntil := time.After(300 * time.Millisecond)
+		waitUntil := time.After(1500 * time.Millisecond)
 	waitDone:
 		for got := 0; got < len(c.Begins); {
 			select {
